@@ -113,6 +113,11 @@ def generate(seed, tier):
             late_done = True
         elif r < 0.92:
             ops.append({"op": "new", "cls": top})
+        elif r < 0.96 and [b for b in tcls["blocks"] if not b.get("dyn")]:
+            # a switched-off block still takes part in the per-call expansion / rollback
+            ops.append({"op": "cmode", "p": p, "path": [],
+                        "block": rng.choice([b["n"] for b in tcls["blocks"] if not b.get("dyn")]),
+                        "on": rng.random() < 0.4})
         else:
             ops.append({"op": "randomize", "p": p})
     if not late_done:
@@ -163,6 +168,7 @@ def run_world(rec, tagn, fault=None, skip=None, record_sites=False):
     trace = []
     op_sites = []
     post = None
+    normal_residue = None
     k_fault = None
     if fault and fault[0] == "site":
         w.fault_plan = {fault[1]: "cb_raise"}
@@ -218,8 +224,13 @@ def run_world(rec, tagn, fault=None, skip=None, record_sites=False):
             _normalise(w, nrng, rec)
             trace.append((oi, "FAULTED"))
             continue
+        if record_sites and op["op"] in ("randomize", "rw", "frw") and out["st"] == "ok" and "p" in op:
+            # a call that ended normally leaves no temporary constraint / solver handle either
+            res_n = randworld.model_residue(w.parties[op["p"]].obj)
+            if res_n and normal_residue is None:
+                normal_residue = {"op": oi, "residue": res_n[:8]}
         trace.append(entry)
-    return {"trace": trace, "sites": list(w.sites_seen), "op_sites": op_sites, "post": post, "posts": posts,
+    return {"normal_residue": normal_residue, "trace": trace, "sites": list(w.sites_seen), "op_sites": op_sites, "post": post, "posts": posts,
             "fired": dict(w.faults_fired), "k": k_fault, "idle_end": randworld.global_state(),
             "sim_ms": int(w.clock.elapsed * 1000)}
 
@@ -283,6 +294,9 @@ def execute(rec):
     base = run_world(rec, "b", record_sites=True)
     sites = base["sites"]
     stats["sites_total"] = len(sites)
+    if base.get("normal_residue"):
+        viol.append({"inv": "C16.model_residue", "cls": "C16.model_residue/normal_call",
+                     "detail": dict(base["normal_residue"], op_def=rec["ops"][base["normal_residue"]["op"]])})
     calls = [oi for oi, op in enumerate(rec["ops"]) if op["op"] in ("randomize", "rw")]
     only = rec.get("only_fault")
     plan = []
